@@ -6,6 +6,7 @@ import (
 	"reflect"
 	"sort"
 	"strconv"
+	"strings"
 
 	at "github.com/DanielSvub/anytype"
 
@@ -162,6 +163,7 @@ func runC13(c *fw.Ctx) {
 	c.Cases("pinned", len(pins), true, func(i int, r *rng.R) { c13Case(c, r, pins[i]) })
 	historyCases(c, "history", 600, 60000, probeNative)
 	c.Cases("shrink-and-grow", c.N(900, 90000), false, func(i int, r *rng.R) { c13ShrinkGrow(c, i, r) })
+	c.Cases("re-homing", c.N(400, 40000), false, func(i int, r *rng.R) { c13Rehome(c, i, r) })
 	// typed container flavours (with nil entries) inside native trees
 	c.Cases("typed-flavours", 8, true, func(i int, r *rng.R) {
 		o1, l1 := at.NewObject("x", 1), at.NewList(1)
@@ -1085,4 +1087,146 @@ func c13EmbeddedHolder(r *rng.R) (any, string) {
 	wll := &DList{List: lateL, tag: "late"}
 	lateL.Init(wll)
 	return holder, what
+}
+
+// c13Rehome: a container P is stored in a container A, leaves it again (in every way a slot can lose its content), and
+// then A is stored in P - a legal, acyclic structure whichever way round the two once were. The export of P (and of a
+// holder of P) is the plain tree of what is there now; whatever either container remembers about where it used to be
+// is nobody's business.
+func c13Rehome(c *fw.Ctx, i int, r *rng.R) {
+	var trace []string
+	in := func() string { return strings.Join(trace, "\n") }
+	say := func(f string, a ...any) { trace = append(trace, fmt.Sprintf(f, a...)) }
+	guard(c, in, func() {
+		pIsList, aIsList := r.Bool(), r.Bool()
+		var P, A any
+		var pSpec, aSpec *spec.Spec
+		if pIsList {
+			P, pSpec = at.NewList("p", 1), spec.ListV(spec.StrV("p"), spec.IntV(1))
+		} else {
+			P, pSpec = at.NewObject("p", 1), spec.ObjV("p", spec.IntV(1))
+		}
+		if aIsList {
+			A, aSpec = at.NewList("a"), spec.ListV(spec.StrV("a"))
+		} else {
+			A, aSpec = at.NewObject("a", true), spec.ObjV("a", spec.BoolV(true))
+		}
+		say("P = %s, A = %s", pSpec.Canon(), aSpec.Canon())
+		// 1. P goes into A
+		switch x := A.(type) {
+		case at.List:
+			switch r.Intn(4) {
+			case 0:
+				x.Add(P)
+				say("A.Add(P)")
+			case 1:
+				x.Insert(0, P)
+				say("A.Insert(0, P)")
+			case 2:
+				x.Add("slot").Replace(x.Count()-1, P)
+				say("A.Add(slot).Replace(last, P)")
+			default:
+				x.SetTF("#3", P)
+				say("A.SetTF(#3, P)")
+			}
+		case at.Object:
+			if r.Bool() {
+				x.Set("k", P)
+				say("A.Set(k, P)")
+			} else {
+				x.SetTF(".k", P)
+				say("A.SetTF(.k, P)")
+			}
+		}
+		// 2. P leaves A
+		switch x := A.(type) {
+		case at.List:
+			idx := -1
+			for j := 0; j < x.Count(); j++ {
+				if sameValue(x.Get(j), P) {
+					idx = j
+				}
+			}
+			switch r.Intn(6) {
+			case 0:
+				x.Replace(idx, "gone")
+				say("A.Replace(%d, gone)", idx)
+			case 1:
+				x.Delete(idx)
+				say("A.Delete(%d)", idx)
+			case 2:
+				x.SetTF(fmt.Sprintf("#%d", idx), nil)
+				say("A.SetTF(#%d, nil)", idx)
+			case 3:
+				x.UnsetTF(fmt.Sprintf("#%d", idx))
+				say("A.UnsetTF(#%d)", idx)
+			case 4:
+				x.Clear().Add("a")
+				say("A.Clear().Add(a)")
+			default:
+				for x.Count() > idx {
+					x.Pop()
+				}
+				say("A.Pop() down to %d", idx)
+			}
+		case at.Object:
+			switch r.Intn(5) {
+			case 0:
+				x.Set("k", "gone")
+				say("A.Set(k, gone)")
+			case 1:
+				x.Unset("k")
+				say("A.Unset(k)")
+			case 2:
+				x.SetTF(".k", 7)
+				say("A.SetTF(.k, 7)")
+			case 3:
+				x.UnsetTF(".k")
+				say("A.UnsetTF(.k)")
+			default:
+				x.Clear().Set("a", true)
+				say("A.Clear().Set(a, true)")
+			}
+		}
+		aNow, err := drive.Walk(A)
+		if err != nil {
+			c.Violate("container-unwalkable", in(), "a consistent container", err.Error())
+			return
+		}
+		aSpec = aNow.ToSpec()
+		// 3. A goes into P
+		var want *spec.Spec
+		switch x := P.(type) {
+		case at.List:
+			if r.Bool() {
+				x.Add(A)
+				say("P.Add(A)")
+			} else {
+				x.SetTF("#2", A)
+				say("P.SetTF(#2, A)")
+			}
+			want = spec.ListV(spec.StrV("p"), spec.IntV(1), aSpec)
+		case at.Object:
+			if r.Bool() {
+				x.Set("a", A)
+				say("P.Set(a, A)")
+			} else {
+				x.SetTF(".a", A)
+				say("P.SetTF(.a, A)")
+			}
+			want = spec.ObjV("p", spec.IntV(1), "a", aSpec)
+		}
+		// (P is exported before anything else happens to it: storing it in a holder first would be one more re-homing)
+		if d := nativeDiff(nativeOf(P), want, ""); d != "" {
+			c.Violate("export-differs-after-history", in(), "plain Go values equal to the current content "+want.Canon(), d)
+			return
+		}
+		holder := at.NewObject("h", P)
+		if d := nativeDiff(nativeOf(holder), spec.ObjV("h", want), ""); d != "" {
+			c.Violate("export-differs-after-history", in(), "holder export: "+spec.ObjV("h", want).Canon(), d)
+			return
+		}
+		c.Count("rehomed_exports_judged")
+		c.Distinct(in())
+	})
 }
